@@ -23,5 +23,5 @@ Theorem ivt_pointers_resolve :
    then hskip (b_image b) (iv_csf (c_ivt c) - iv_self (c_ivt c)) = b_csf b /\
         (hlen (b_csf b) = 8192 -> c_bdt_len c = h_ivt_off c + hlen (b_image b) + (if c_enc c then 512 else 0))
    else iv_csf (c_ivt c) = 0 /\ c_bdt_len c = h_ivt_off c + hlen (b_image b)).
-Proof. exact pointers_resolve. Qed.
+Proof. exact pointers_resolve'. Qed.
 Print Assumptions ivt_pointers_resolve.
